@@ -562,7 +562,7 @@ theorem mapM_append_except {α β} (f : α → Except Err β) (l l' : List α) :
     (l ++ l').mapM f = (do let a ← l.mapM f; let b ← l'.mapM f; pure (a ++ b)) := by
   simp [List.mapM_append]
 
-theorem perKeyW_nonnil (cfg : Cfg) (rec : List KVs → Except Err KVs) (ws : List XVal) (hws : ws ≠ [])
+theorem perKeyW_nonnil (cfg : Cfg) (rec : String → List KVs → Except Err KVs) (ws : List XVal) (hws : ws ≠ [])
     (r : XVal) (h : perKeyW cfg rec ws = .ok r) : r.isNil = false := by
   cases ws with
   | nil => exact absurd rfl hws
@@ -574,15 +574,15 @@ theorem perKeyW_nonnil (cfg : Cfg) (rec : List KVs → Except Err KVs) (ws : Lis
       cases hp : rest.mapM (asSc ty) <;> simp [hp, bind, Except.bind] at h
       obtain ⟨u, hu⟩ := combineSc_sc _ _ _ _ h
       subst hu; rfl
-    | map kvs =>
+    | map et kvs =>
       simp only [perKeyW] at h
-      cases hp : rest.mapM asMap <;> simp [hp, bind, Except.bind] at h
+      cases hp : rest.mapM (asMap et) <;> simp [hp, bind, Except.bind] at h
       rename_i ms
-      cases hr : rec (kvs :: ms) <;> simp [hr, pure, Except.pure] at h
+      cases hr : rec et (kvs :: ms) <;> simp [hr, pure, Except.pure] at h
       subst h; rfl
 
-theorem perKeyW_rechunk (cfg : Cfg) (rec : List KVs → Except Err KVs)
-    (hrec : ∀ ms ms', ms ≠ [] → EqvE (rec ms >>= fun r => rec (r :: ms')) (rec (ms ++ ms')))
+theorem perKeyW_rechunk (cfg : Cfg) (rec : String → List KVs → Except Err KVs)
+    (hrec : ∀ et ms ms', ms ≠ [] → EqvE (rec et ms >>= fun r => rec et (r :: ms')) (rec et (ms ++ ms')))
     (wa wb : List XVal) (hwa : wa ≠ []) :
     EqvE (perKeyW cfg rec wa >>= fun r => perKeyW cfg rec (r :: wb)) (perKeyW cfg rec (wa ++ wb)) := by
   cases wa with
@@ -614,17 +614,17 @@ theorem perKeyW_rechunk (cfg : Cfg) (rec : List KVs → Except Err KVs)
             simp only [pure, Except.pure]
             rw [combineSc_rechunk _ _ (v :: ps) qs u (by simp) hc]
             exact EqvE.rfl' _
-    | map kvs =>
+    | map et kvs =>
       simp only [List.cons_append, perKeyW, mapM_append_except]
-      cases hp : rest.mapM asMap with
+      cases hp : rest.mapM (asMap et) with
       | error e => simp [bind, Except.bind, EqvE]
       | ok ms =>
         simp only [bind, Except.bind]
-        have hr := hrec (kvs :: ms)
-        cases hc : rec (kvs :: ms) with
+        have hr := hrec et (kvs :: ms)
+        cases hc : rec et (kvs :: ms) with
         | error e =>
           simp only
-          cases hq : wb.mapM asMap with
+          cases hq : wb.mapM (asMap et) with
           | error e' => simp [EqvE]
           | ok ms' =>
             have := hr ms' (by simp)
@@ -633,14 +633,14 @@ theorem perKeyW_rechunk (cfg : Cfg) (rec : List KVs → Except Err KVs)
             simp only [pure, Except.pure, ← List.cons_append, he, EqvE]
         | ok r =>
           simp only [pure, Except.pure, perKeyW, bind, Except.bind]
-          cases hq : wb.mapM asMap with
+          cases hq : wb.mapM (asMap et) with
           | error e' => simp [EqvE]
           | ok ms' =>
             have := hr ms' (by simp)
             rw [hc] at this
             simp only [bind, Except.bind, List.cons_append] at this
             simp only
-            cases h1 : rec (r :: ms') <;> cases h2 : rec (kvs :: (ms ++ ms')) <;>
+            cases h1 : rec et (r :: ms') <;> cases h2 : rec et (kvs :: (ms ++ ms')) <;>
               simp [h1, h2, EqvE] at this ⊢
             exact this
 
@@ -655,8 +655,8 @@ theorem dropNil_cons_nil (cfg : Cfg) (b : List XVal) (h : cfg.nilAbsent = true) 
     dropNil cfg (.nil :: b) = dropNil cfg b := by
   unfold dropNil; simp [h, XVal.isNil]
 
-theorem perKey_rechunk (cfg : Cfg) (rec : List KVs → Except Err KVs)
-    (hrec : ∀ ms ms', ms ≠ [] → EqvE (rec ms >>= fun r => rec (r :: ms')) (rec (ms ++ ms')))
+theorem perKey_rechunk (cfg : Cfg) (rec : String → List KVs → Except Err KVs)
+    (hrec : ∀ et ms ms', ms ≠ [] → EqvE (rec et ms >>= fun r => rec et (r :: ms')) (rec et (ms ++ ms')))
     (va vb : List XVal) (hva : va ≠ []) :
     EqvE (perKey cfg rec va >>= fun r => perKey cfg rec (r :: vb)) (perKey cfg rec (va ++ vb)) := by
   unfold perKey
@@ -723,26 +723,34 @@ theorem build_rechunk (h : List XVal → Except Err XVal)
       rw [vals_of_not_mem r k hkr, vals_of_not_mem A k hkA]
       exact EqvE.rfl' _
 
-theorem concatEvs_succ (cfg : Cfg) (n : Nat) (evs : KVs) :
-    concatEvs cfg (n + 1) evs =
-      buildM (fun k => perKey cfg (fun ms => concatEvs cfg n ms.flatten) (vals evs k)) (keysOf (evs.map (·.1))) := rfl
+theorem guardPanics_std (cfg : Cfg) (hs : cfg.Std) (et : String) : guardPanics cfg et = false := by
+  simp [guardPanics, hs.1]
 
-/-- re-chunking law for `map[string]any` (on the flattened occurrences) -/
-theorem concatEvs_rechunk (cfg : Cfg) (n : Nat) (A B : KVs) :
-    EqvE (concatEvs cfg n A >>= fun r => concatEvs cfg n (r ++ B)) (concatEvs cfg n (A ++ B)) := by
-  induction n generalizing A B with
-  | zero => simp [concatEvs, bind, Except.bind, EqvE]
+/-- with both `concatMaps` facts at their standard value the typed-map model is the plain
+    per-key construction (no `IsNil` panic, every map type recurses) -/
+theorem concatEvs_succ (cfg : Cfg) (hs : cfg.Std) (n : Nat) (et : String) (evs : KVs) :
+    concatEvs cfg (n + 1) et evs =
+      buildM (fun k => perKey cfg (fun et' ms => concatEvs cfg n et' ms.flatten) (vals evs k)) (keysOf (evs.map (·.1))) := by
+  simp only [concatEvs, guardPanics_std cfg hs, Bool.false_and, perKeyF, hs.2, if_true, buildM]
+  rfl
+
+/-- re-chunking law for maps of any element type (on the flattened occurrences) -/
+theorem concatEvs_rechunk (cfg : Cfg) (hs : cfg.Std) (n : Nat) : ∀ (et : String) (A B : KVs),
+    EqvE (concatEvs cfg n et A >>= fun r => concatEvs cfg n et (r ++ B)) (concatEvs cfg n et (A ++ B)) := by
+  induction n with
+  | zero => intro et A B; simp [concatEvs, bind, Except.bind, EqvE]
   | succ n ih =>
-    simp only [concatEvs_succ]
-    apply build_rechunk (perKey cfg (fun ms => concatEvs cfg n ms.flatten))
+    intro et A B
+    simp only [concatEvs_succ cfg hs]
+    apply build_rechunk (perKey cfg (fun et' ms => concatEvs cfg n et' ms.flatten))
     intro va vb hva
     apply perKey_rechunk _ _ _ va vb hva
-    intro ms ms' _
-    simpa using ih ms.flatten ms'.flatten
+    intro et' ms ms' _
+    simpa using ih et' ms.flatten ms'.flatten
 
-theorem concatMaps_rechunk (cfg : Cfg) (n : Nat) (xs ys : List KVs) :
-    EqvE (concatMaps cfg n xs >>= fun r => concatMaps cfg n (r :: ys)) (concatMaps cfg n (xs ++ ys)) := by
-  simpa [concatMaps] using concatEvs_rechunk cfg n xs.flatten ys.flatten
+theorem concatMaps_rechunk (cfg : Cfg) (hs : cfg.Std) (n : Nat) (et : String) (xs ys : List KVs) :
+    EqvE (concatMaps cfg n et xs >>= fun r => concatMaps cfg n et (r :: ys)) (concatMaps cfg n et (xs ++ ys)) := by
+  simpa [concatMaps] using concatEvs_rechunk cfg hs n et xs.flatten ys.flatten
 
 /-! ### no panic with the nil guard; fuel adequacy -/
 
@@ -784,8 +792,17 @@ theorem asSc_fail (ty : String) (x : XVal) (e : Err) (h : asSc ty x = .error e) 
   · split at h <;> cases h; rfl
   · cases h; rfl
 
-theorem asMap_fail (x : XVal) (e : Err) (h : asMap x = .error e) : e = .fail := by
-  unfold asMap at h; split at h <;> cases h; rfl
+theorem asMap_fail (et : String) (x : XVal) (e : Err) (h : asMap et x = .error e) : e = .fail := by
+  unfold asMap at h; split at h
+  · split at h <;> cases h; rfl
+  · cases h; rfl
+
+theorem asMap_ok (et : String) (x : XVal) (m : KVs) (h : asMap et x = .ok m) : x = .map et m := by
+  unfold asMap at h; split at h
+  · split at h
+    · rename_i he; cases h; rw [he]
+    · cases h
+  · cases h
 
 theorem combineSc_err (r : Rule) (ty : String) (v : String) (ps : List String) (e : Err)
     (h : combineSc r ty (v :: ps) = .error e) : e = .fail := by
@@ -799,10 +816,10 @@ theorem combineSc_err (r : Rule) (ty : String) (v : String) (ps : List String) (
 
 /-- errors of one key: either an ordinary failure, or the nil-type panic (only without the
     guard), or whatever the nested concatenation reports -/
-theorem perKey_err (cfg : Cfg) (rec : List KVs → Except Err KVs) (vs : List XVal) (e : Err)
+theorem perKey_err (cfg : Cfg) (rec : String → List KVs → Except Err KVs) (vs : List XVal) (e : Err)
     (h : perKey cfg rec vs = .error e) :
     e = .fail ∨ (e = .panic ∧ cfg.nilAbsent = false) ∨
-      ∃ ms, ms ≠ [] ∧ (∀ m ∈ ms, .map m ∈ vs) ∧ rec ms = .error e := by
+      ∃ et ms, ms ≠ [] ∧ (∀ m ∈ ms, .map et m ∈ vs) ∧ rec et ms = .error e := by
   unfold perKey at h
   have hsub : ∀ x ∈ dropNil cfg vs, x ∈ vs ∧ (cfg.nilAbsent = true → x.isNil = false) := by
     intro x hx; unfold dropNil at hx
@@ -831,45 +848,44 @@ theorem perKey_err (cfg : Cfg) (rec : List KVs → Except Err KVs) (vs : List XV
       | ok ps =>
         simp [hp, bind, Except.bind] at h
         exact Or.inl (combineSc_err _ _ _ _ _ h)
-    | map kvs =>
+    | map et kvs =>
       simp only [perKeyW] at h
-      cases hp : rest.mapM asMap with
+      cases hp : rest.mapM (asMap et) with
       | error e' =>
         simp [hp, bind, Except.bind] at h; subst h
         obtain ⟨x, _, hx⟩ := mapM_error_mem _ _ _ hp
-        exact Or.inl (asMap_fail _ _ hx)
+        exact Or.inl (asMap_fail _ _ _ hx)
       | ok ms =>
         simp [hp, bind, Except.bind] at h
-        cases hr : rec (kvs :: ms) with
+        cases hr : rec et (kvs :: ms) with
         | ok r => simp [hr, pure, Except.pure] at h
         | error e' =>
           simp [hr] at h; subst h
           right; right
-          refine ⟨kvs :: ms, by simp, ?_, hr⟩
+          refine ⟨et, kvs :: ms, by simp, ?_, hr⟩
           intro m hm
           simp only [List.mem_cons] at hm
           rcases hm with rfl | hm
           · exact (hsub _ (by simp)).1
           · obtain ⟨x, hx, hfx⟩ := mapM_mem_ok _ _ _ hp m hm
-            have : x = .map m := by
-              unfold asMap at hfx; split at hfx <;> cases hfx; rfl
+            have : x = .map et m := asMap_ok _ _ _ hfx
             subst this
             exact (hsub _ (by simp [hx])).1
 
-theorem concatEvs_no_panic (cfg : Cfg) (hg : cfg.nilAbsent = true) (n : Nat) (evs : KVs) :
-    concatEvs cfg n evs ≠ .error .panic := by
-  induction n generalizing evs with
-  | zero => simp [concatEvs]
+theorem concatEvs_no_panic (cfg : Cfg) (hs : cfg.Std) (hg : cfg.nilAbsent = true) (n : Nat) :
+    ∀ (et : String) (evs : KVs), concatEvs cfg n et evs ≠ .error .panic := by
+  induction n with
+  | zero => intro et evs; simp [concatEvs]
   | succ n ih =>
-    intro h
-    rw [concatEvs_succ] at h
+    intro et evs h
+    rw [concatEvs_succ cfg hs] at h
     obtain ⟨k, _, he⟩ := buildM_error _ _ _ h
-    rcases perKey_err _ _ _ _ he with h1 | ⟨_, h2⟩ | ⟨ms, _, _, h3⟩
+    rcases perKey_err _ _ _ _ he with h1 | ⟨_, h2⟩ | ⟨et', ms, _, _, h3⟩
     · cases h1
     · rw [hg] at h2; cases h2
-    · exact ih _ h3
+    · exact ih _ _ h3
 
-theorem depth_map (m : KVs) : (XVal.map m).depth = 1 + depthKVs m := by
+theorem depth_map (et : String) (m : KVs) : (XVal.map et m).depth = 1 + depthKVs m := by
   simp [XVal.depth, depthKVs]
 
 theorem depthKVs_cons (k : String) (v : XVal) (r : KVs) : depthKVs ((k, v) :: r) = max v.depth (depthKVs r) := by
@@ -909,18 +925,18 @@ theorem mem_vals (evs : KVs) (k : String) (v : XVal) (h : v ∈ vals evs k) : (k
   simp only at hk hv; subst hk; subst hv; exact hp
 
 /-- with more fuel than the nesting depth the fuel error is unreachable -/
-theorem concatEvs_fuel_ok (cfg : Cfg) (n : Nat) (evs : KVs) (hd : depthKVs evs < n) :
-    concatEvs cfg n evs ≠ .error .fuel := by
-  induction n generalizing evs with
-  | zero => omega
+theorem concatEvs_fuel_ok (cfg : Cfg) (hs : cfg.Std) (n : Nat) : ∀ (et : String) (evs : KVs), depthKVs evs < n →
+    concatEvs cfg n et evs ≠ .error .fuel := by
+  induction n with
+  | zero => intro et evs hd; omega
   | succ n ih =>
-    intro h
-    rw [concatEvs_succ] at h
+    intro et evs hd h
+    rw [concatEvs_succ cfg hs] at h
     obtain ⟨k, _, he⟩ := buildM_error _ _ _ h
-    rcases perKey_err _ _ _ _ he with h1 | ⟨h2, _⟩ | ⟨ms, hne, hms, h3⟩
+    rcases perKey_err _ _ _ _ he with h1 | ⟨h2, _⟩ | ⟨et', ms, hne, hms, h3⟩
     · cases h1
     · cases h2
-    · refine ih ms.flatten ?_ h3
+    · refine ih et' ms.flatten ?_ h3
       have : ∀ m ∈ ms, depthKVs m ≤ n - 1 := by
         intro m hm
         have h1 := depth_mem evs k _ (mem_vals evs k _ (hms m hm))
@@ -986,7 +1002,7 @@ theorem concatMsgs_eq (cfg : Cfg) (n : Nat) (ms : List Msg) :
     concatMsgs cfg n ms =
       assemble (firstNE cfg.roleCheck "" (ms.map (·.role))) (firstNE cfg.nameCheck "" (ms.map (·.name)))
         (firstNE cfg.tcidCheck "" (ms.map (·.toolCallID))) (concatTC cfg (ms.flatMap (·.toolCalls)))
-        (concatEvs cfg n (ms.map (·.extra)).flatten)
+        (concatEvs cfg n "any" (ms.map (·.extra)).flatten)
         (joinS (ms.map (·.content))) (lastNEl [] (ms.map (·.multi))) (concatMeta (ms.map (·.rmeta))) := by
   unfold concatMsgs assemble concatMaps
   rw [flatten_filter_nonempty]
@@ -1001,10 +1017,10 @@ theorem firstNE_ok_append (c : Bool) (xs ys : List String) (a : String) (h : fir
   rw [firstNE_append, h, firstNE_cons_empty]; rfl
 
 /-- re-chunking law for `ConcatMessages` -/
-theorem concatMsgs_rechunk (cfg : Cfg) (n : Nat) (xs ys : List Msg) :
+theorem concatMsgs_rechunk (cfg : Cfg) (hs : cfg.Std) (n : Nat) (xs ys : List Msg) :
     EqvE (concatMsgs cfg n xs >>= fun r => concatMsgs cfg n (r :: ys)) (concatMsgs cfg n (xs ++ ys)) := by
   have hT := concatTC_rechunk cfg (xs.flatMap (·.toolCalls)) (ys.flatMap (·.toolCalls))
-  have hE := concatEvs_rechunk cfg n (xs.map (·.extra)).flatten (ys.map (·.extra)).flatten
+  have hE := concatEvs_rechunk cfg hs n "any" (xs.map (·.extra)).flatten (ys.map (·.extra)).flatten
   cases hx : concatMsgs cfg n xs with
   | error x =>
     rw [concatMsgs_eq] at hx
@@ -1056,7 +1072,7 @@ theorem allSome_append {α} (a b : List (Option α)) :
       cases allSome t <;> cases allSome b <;> rfl
 
 /-- the same for `[]*Message` (a nil chunk is an error) -/
-theorem concatMsgPtrs_rechunk (cfg : Cfg) (n : Nat) (xs ys : List (Option Msg)) :
+theorem concatMsgPtrs_rechunk (cfg : Cfg) (hs : cfg.Std) (n : Nat) (xs ys : List (Option Msg)) :
     EqvE (concatMsgPtrs cfg n xs >>= fun r => concatMsgPtrs cfg n (some r :: ys)) (concatMsgPtrs cfg n (xs ++ ys)) := by
   unfold concatMsgPtrs
   rw [allSome_append]
@@ -1069,7 +1085,7 @@ theorem concatMsgPtrs_rechunk (cfg : Cfg) (n : Nat) (xs ys : List (Option Msg)) 
       cases concatMsgs cfg n ms <;> simp [bind, Except.bind, EqvE]
     | some ms' =>
       simp only [allSome, hy]
-      exact concatMsgs_rechunk cfg n ms ms'
+      exact concatMsgs_rechunk cfg hs n ms ms'
 
 /-! ### compose-level stream concatenation -/
 
@@ -1118,15 +1134,15 @@ theorem concatStrChunks_rechunk (cfg : Cfg) (xs ys : List String) (hxs : xs ≠ 
     EqvE (concatStrChunks cfg xs >>= fun r => concatStrChunks cfg (r :: ys)) (concatStrChunks cfg (xs ++ ys)) :=
   concatStream_rechunk (strCore cfg) (fun a b h => strCore_rechunk cfg a b h) xs ys hxs
 
-theorem concatMapChunks_rechunk (cfg : Cfg) (n : Nat) (xs ys : List KVs) (hxs : xs ≠ []) :
-    EqvE (concatMapChunks cfg n xs >>= fun r => concatMapChunks cfg n (r :: ys)) (concatMapChunks cfg n (xs ++ ys)) :=
-  concatStream_rechunk (concatMaps cfg n) (fun a b _ => concatMaps_rechunk cfg n a b) xs ys hxs
+theorem concatMapChunks_rechunk (cfg : Cfg) (hs : cfg.Std) (n : Nat) (et : String) (xs ys : List KVs) (hxs : xs ≠ []) :
+    EqvE (concatMapChunks cfg n et xs >>= fun r => concatMapChunks cfg n et (r :: ys)) (concatMapChunks cfg n et (xs ++ ys)) :=
+  concatStream_rechunk (concatMaps cfg n et) (fun a b _ => concatMaps_rechunk cfg hs n et a b) xs ys hxs
 
-theorem concatMsgChunks_rechunk (cfg : Cfg) (n : Nat) (xs ys : List (Option Msg)) (hxs : xs ≠ []) :
+theorem concatMsgChunks_rechunk (cfg : Cfg) (hs : cfg.Std) (n : Nat) (xs ys : List (Option Msg)) (hxs : xs ≠ []) :
     EqvE (concatMsgChunks cfg n xs >>= fun r => concatMsgChunks cfg n (r :: ys)) (concatMsgChunks cfg n (xs ++ ys)) := by
   apply concatStream_rechunk _ _ xs ys hxs
   intro a b _
-  have := concatMsgPtrs_rechunk cfg n a b
+  have := concatMsgPtrs_rechunk cfg hs n a b
   cases h1 : concatMsgPtrs cfg n a with
   | error e =>
     rw [h1] at this
@@ -1415,7 +1431,7 @@ theorem assemble_err_exact (R N I T E c m rm) (x : Err) (h : assemble R N I T E 
 
 /-- an error of `ConcatMessages` is an ordinary failure or comes from the extras -/
 theorem concatMsgs_err (cfg : Cfg) (n : Nat) (ms : List Msg) (e : Err) (h : concatMsgs cfg n ms = .error e) :
-    e = .fail ∨ concatEvs cfg n (ms.map (·.extra)).flatten = .error e := by
+    e = .fail ∨ concatEvs cfg n "any" (ms.map (·.extra)).flatten = .error e := by
   rw [concatMsgs_eq] at h
   rcases assemble_err_exact _ _ _ _ _ _ _ _ _ h with h | h | h | h | h
   · exact Or.inl (firstNE_err _ _ _ _ h)
@@ -1426,7 +1442,7 @@ theorem concatMsgs_err (cfg : Cfg) (n : Nat) (ms : List Msg) (e : Err) (h : conc
 
 def extrasDepth (ms : List Msg) : Nat := depthKVs (ms.map (·.extra)).flatten
 
-theorem concatMsgs_total (cfg : Cfg) (hg : cfg.nilAbsent = true) (n : Nat) (ms : List Msg)
+theorem concatMsgs_total (cfg : Cfg) (hs : cfg.Std) (hg : cfg.nilAbsent = true) (n : Nat) (ms : List Msg)
     (hn : extrasDepth ms < n) :
     (∃ m, concatMsgs cfg n ms = .ok m) ∨ concatMsgs cfg n ms = .error .fail := by
   cases h : concatMsgs cfg n ms with
@@ -1437,29 +1453,29 @@ theorem concatMsgs_total (cfg : Cfg) (hg : cfg.nilAbsent = true) (n : Nat) (ms :
     · rw [h1]
     · cases e with
       | fail => rfl
-      | panic => exact absurd h2 (concatEvs_no_panic cfg hg n _)
-      | fuel => exact absurd h2 (concatEvs_fuel_ok cfg n _ hn)
+      | panic => exact absurd h2 (concatEvs_no_panic cfg hs hg n _ _)
+      | fuel => exact absurd h2 (concatEvs_fuel_ok cfg hs n _ _ hn)
 
-theorem concatMsgPtrs_total (cfg : Cfg) (hg : cfg.nilAbsent = true) (n : Nat) (cs : List (Option Msg))
+theorem concatMsgPtrs_total (cfg : Cfg) (hs : cfg.Std) (hg : cfg.nilAbsent = true) (n : Nat) (cs : List (Option Msg))
     (hn : ∀ ms, allSome cs = some ms → extrasDepth ms < n) :
     (∃ m, concatMsgPtrs cfg n cs = .ok m) ∨ concatMsgPtrs cfg n cs = .error .fail := by
   unfold concatMsgPtrs
   cases h : allSome cs with
   | none => exact Or.inr rfl
-  | some ms => exact concatMsgs_total cfg hg n ms (hn ms h)
+  | some ms => exact concatMsgs_total cfg hs hg n ms (hn ms h)
 
-theorem concatMaps_total (cfg : Cfg) (hg : cfg.nilAbsent = true) (n : Nat) (ms : List KVs)
+theorem concatMaps_total (cfg : Cfg) (hs : cfg.Std) (hg : cfg.nilAbsent = true) (n : Nat) (et : String) (ms : List KVs)
     (hn : depthKVs ms.flatten < n) :
-    (∃ m, concatMaps cfg n ms = .ok m) ∨ concatMaps cfg n ms = .error .fail := by
+    (∃ m, concatMaps cfg n et ms = .ok m) ∨ concatMaps cfg n et ms = .error .fail := by
   unfold concatMaps
-  cases h : concatEvs cfg n ms.flatten with
+  cases h : concatEvs cfg n et ms.flatten with
   | ok m => exact Or.inl ⟨m, rfl⟩
   | error e =>
     right
     cases e with
     | fail => rfl
-    | panic => exact absurd h (concatEvs_no_panic cfg hg n _)
-    | fuel => exact absurd h (concatEvs_fuel_ok cfg n _ hn)
+    | panic => exact absurd h (concatEvs_no_panic cfg hs hg n _ _)
+    | fuel => exact absurd h (concatEvs_fuel_ok cfg hs n _ _ hn)
 
 theorem concatStream_total {α} (core : List α → Except Err α)
     (hc : ∀ xs, xs ≠ [] → (∃ m, core xs = .ok m) ∨ core xs = .error .fail) (xs : List α) :
@@ -1493,7 +1509,7 @@ theorem concatMsgs_ok_fields (cfg : Cfg) (n : Nat) (ms : List Msg) (m : Msg) (h 
     m.multi = lastNEl [] (ms.map (·.multi)) ∧
     concatTC cfg (ms.flatMap (·.toolCalls)) = .ok m.toolCalls ∧
     m.rmeta = concatMeta (ms.map (·.rmeta)) ∧
-    concatEvs cfg n (ms.map (·.extra)).flatten = .ok m.extra := by
+    concatEvs cfg n "any" (ms.map (·.extra)).flatten = .ok m.extra := by
   rw [concatMsgs_eq] at h
   obtain ⟨a, b, i, d, e, hR, hN, hI, hT, hE, hr⟩ := assemble_ok _ _ _ _ _ _ _ _ _ h
   subst hr
@@ -1509,8 +1525,8 @@ def isFail {α} : Except Err α → Bool
 
 /-! ### the fuel is irrelevant once it exceeds the nesting depth -/
 
-theorem perKeyW_congr (cfg : Cfg) (rec rec' : List KVs → Except Err KVs) (ws : List XVal)
-    (h : ∀ ms, ms ≠ [] → (∀ m ∈ ms, XVal.map m ∈ ws) → rec ms = rec' ms) :
+theorem perKeyW_congr (cfg : Cfg) (rec rec' : String → List KVs → Except Err KVs) (ws : List XVal)
+    (h : ∀ et ms, ms ≠ [] → (∀ m ∈ ms, XVal.map et m ∈ ws) → rec et ms = rec' et ms) :
     perKeyW cfg rec ws = perKeyW cfg rec' ws := by
   cases ws with
   | nil => rfl
@@ -1518,30 +1534,29 @@ theorem perKeyW_congr (cfg : Cfg) (rec rec' : List KVs → Except Err KVs) (ws :
     cases w with
     | nil => rfl
     | sc ty v => rfl
-    | map kvs =>
+    | map et kvs =>
       simp only [perKeyW]
-      cases hp : rest.mapM asMap with
+      cases hp : rest.mapM (asMap et) with
       | error e => rfl
       | ok ms =>
         simp only [bind, Except.bind]
-        rw [h (kvs :: ms) (by simp)]
+        rw [h et (kvs :: ms) (by simp)]
         intro m hm
         simp only [List.mem_cons] at hm
         rcases hm with rfl | hm
         · simp
         · obtain ⟨x, hx, hfx⟩ := mapM_mem_ok _ _ _ hp m hm
-          have : x = .map m := by
-            unfold asMap at hfx; split at hfx <;> cases hfx; rfl
+          have : x = .map et m := asMap_ok _ _ _ hfx
           subst this
           simp [hx]
 
-theorem perKey_congr (cfg : Cfg) (rec rec' : List KVs → Except Err KVs) (vs : List XVal)
-    (h : ∀ ms, ms ≠ [] → (∀ m ∈ ms, XVal.map m ∈ vs) → rec ms = rec' ms) :
+theorem perKey_congr (cfg : Cfg) (rec rec' : String → List KVs → Except Err KVs) (vs : List XVal)
+    (h : ∀ et ms, ms ≠ [] → (∀ m ∈ ms, XVal.map et m ∈ vs) → rec et ms = rec' et ms) :
     perKey cfg rec vs = perKey cfg rec' vs := by
   unfold perKey
   apply perKeyW_congr
-  intro ms hne hms
-  apply h ms hne
+  intro et ms hne hms
+  apply h et ms hne
   intro m hm
   have := hms m hm
   unfold dropNil at this
@@ -1556,19 +1571,20 @@ theorem buildM_congr_eq (f f' : String → Except Err XVal) (ks : List String) (
   | cons k ks ih =>
     rw [buildM_cons, buildM_cons, h k (by simp), ih (fun k' hk' => h k' (by simp [hk']))]
 
-theorem concatEvs_fuel_irrelevant (cfg : Cfg) (n m : Nat) (evs : KVs) (hn : depthKVs evs < n) (hm : depthKVs evs < m) :
-    concatEvs cfg n evs = concatEvs cfg m evs := by
-  induction n generalizing m evs with
-  | zero => omega
+theorem concatEvs_fuel_irrelevant (cfg : Cfg) (hs : cfg.Std) (n : Nat) : ∀ (m : Nat) (et : String) (evs : KVs),
+    depthKVs evs < n → depthKVs evs < m → concatEvs cfg n et evs = concatEvs cfg m et evs := by
+  induction n with
+  | zero => intro m et evs hn hm; omega
   | succ n ih =>
+    intro m et evs hn hm
     cases m with
     | zero => omega
     | succ m =>
-      rw [concatEvs_succ, concatEvs_succ]
+      rw [concatEvs_succ cfg hs, concatEvs_succ cfg hs]
       apply buildM_congr_eq
       intro k _
       apply perKey_congr
-      intro ms hne hms
+      intro et' ms hne hms
       have hb : ∀ x ∈ ms, depthKVs x + 1 ≤ depthKVs evs := by
         intro x hx
         have h1 := depth_mem evs k _ (mem_vals evs k _ (hms x hx))
@@ -1579,15 +1595,15 @@ theorem concatEvs_fuel_irrelevant (cfg : Cfg) (n m : Nat) (evs : KVs) (hn : dept
         | nil => exact absurd rfl hne
         | cons x _ => have := hb x (by simp); omega
       have hfl := depthKVs_flatten ms (depthKVs evs - 1) (fun x hx => by have := hb x hx; omega)
-      exact ih m ms.flatten (by omega) (by omega)
+      exact ih m et' ms.flatten (by omega) (by omega)
 
-theorem concatMsgs_fuel_irrelevant (cfg : Cfg) (n m : Nat) (ms : List Msg) (hn : extrasDepth ms < n) (hm : extrasDepth ms < m) :
+theorem concatMsgs_fuel_irrelevant (cfg : Cfg) (hs : cfg.Std) (n m : Nat) (ms : List Msg) (hn : extrasDepth ms < n) (hm : extrasDepth ms < m) :
     concatMsgs cfg n ms = concatMsgs cfg m ms := by
-  rw [concatMsgs_eq, concatMsgs_eq, concatEvs_fuel_irrelevant cfg n m _ hn hm]
+  rw [concatMsgs_eq, concatMsgs_eq, concatEvs_fuel_irrelevant cfg hs n m _ _ hn hm]
 
 /-! ### message arrays -/
 
-theorem concatCol_rechunk (cfg : Cfg) (n : Nat) (a b : List (Option Msg)) :
+theorem concatCol_rechunk (cfg : Cfg) (hs : cfg.Std) (n : Nat) (a b : List (Option Msg)) :
     EqvE (concatCol cfg n a >>= fun r => concatCol cfg n (r :: b)) (concatCol cfg n (a ++ b)) := by
   unfold concatCol
   simp only [List.filterMap_append, List.filterMap_cons]
@@ -1599,7 +1615,7 @@ theorem concatCol_rechunk (cfg : Cfg) (n : Nat) (a b : List (Option Msg)) :
     cases t with
     | nil => simp [bind, Except.bind]; exact EqvE.rfl' _
     | cons y t' =>
-      have law := concatMsgs_rechunk cfg n (x :: y :: t') fb
+      have law := concatMsgs_rechunk cfg hs n (x :: y :: t') fb
       simp only [List.cons_append] at law ⊢
       cases hc : concatMsgs cfg n (x :: y :: t') with
       | error e =>
@@ -1665,7 +1681,7 @@ theorem mapM_error_of_mem {α β} (f : α → Except Err β) (l : List α) (x : 
       · obtain ⟨e', he⟩ := ih hx
         exact ⟨e', by simp [bind, Except.bind, he]⟩
 
-theorem concatArr_rechunk (cfg : Cfg) (n : Nat) (xs ys : List (List (Option Msg))) (hxs : xs ≠ []) :
+theorem concatArr_rechunk (cfg : Cfg) (hs : cfg.Std) (n : Nat) (xs ys : List (List (Option Msg))) (hxs : xs ≠ []) :
     EqvE (concatArr cfg n xs >>= fun r => concatArr cfg n (r :: ys)) (concatArr cfg n (xs ++ ys)) := by
   cases xs with
   | nil => exact absurd rfl hxs
@@ -1679,7 +1695,7 @@ theorem concatArr_rechunk (cfg : Cfg) (n : Nat) (xs ys : List (List (Option Msg)
         simp only [bind, Except.bind]
         by_cases hy : (a0 :: (t ++ ys)).all (fun a => a.length == a0.length) = true
         · rw [if_pos hy]
-          have law := concatCol_rechunk cfg n ((a0 :: t).map (fun a => a.getD i none)) (ys.map (fun a => a.getD i none))
+          have law := concatCol_rechunk cfg hs n ((a0 :: t).map (fun a => a.getD i none)) (ys.map (fun a => a.getD i none))
           rw [he] at law
           obtain ⟨e', he'⟩ := EqvE.error_left law
           obtain ⟨e'', he''⟩ := mapM_error_of_mem
@@ -1700,7 +1716,7 @@ theorem concatArr_rechunk (cfg : Cfg) (n : Nat) (xs ys : List (List (Option Msg)
           apply mapM_congr_eqv
           intro i hi
           simp only [List.mem_range] at hi
-          have law := concatCol_rechunk cfg n ((a0 :: t).map (fun a => a.getD i none)) (ys.map (fun a => a.getD i none))
+          have law := concatCol_rechunk cfg hs n ((a0 :: t).map (fun a => a.getD i none)) (ys.map (fun a => a.getD i none))
           have hgi := hget i (by simpa using hi) (by omega)
           simp only [List.getElem_range] at hgi
           rw [hgi] at law
@@ -1715,19 +1731,19 @@ theorem concatArr_rechunk (cfg : Cfg) (n : Nat) (xs ys : List (List (Option Msg)
         exact ⟨h.1, h.2.1⟩
       rw [if_neg hy]; simp [bind, Except.bind, EqvE]
 
-theorem concatArrChunks_rechunk (cfg : Cfg) (n : Nat) (xs ys : List (List (Option Msg))) (hxs : xs ≠ []) :
+theorem concatArrChunks_rechunk (cfg : Cfg) (hs : cfg.Std) (n : Nat) (xs ys : List (List (Option Msg))) (hxs : xs ≠ []) :
     EqvE (concatArrChunks cfg n xs >>= fun r => concatArrChunks cfg n (r :: ys)) (concatArrChunks cfg n (xs ++ ys)) :=
-  concatStream_rechunk (concatArr cfg n) (fun a b h => concatArr_rechunk cfg n a b h) xs ys hxs
+  concatStream_rechunk (concatArr cfg n) (fun a b h => concatArr_rechunk cfg hs n a b h) xs ys hxs
 
 
-theorem concatMsgs_no_panic (cfg : Cfg) (hg : cfg.nilAbsent = true) (n : Nat) (ms : List Msg) :
+theorem concatMsgs_no_panic (cfg : Cfg) (hs : cfg.Std) (hg : cfg.nilAbsent = true) (n : Nat) (ms : List Msg) :
     concatMsgs cfg n ms ≠ .error .panic := by
   intro he
   rcases concatMsgs_err cfg n ms _ he with h1 | h2
   · cases h1
-  · exact concatEvs_no_panic cfg hg n _ h2
+  · exact concatEvs_no_panic cfg hs hg n _ _ h2
 
-theorem concatCol_no_panic (cfg : Cfg) (hg : cfg.nilAbsent = true) (n : Nat) (col : List (Option Msg)) :
+theorem concatCol_no_panic (cfg : Cfg) (hs : cfg.Std) (hg : cfg.nilAbsent = true) (n : Nat) (col : List (Option Msg)) :
     concatCol cfg n col ≠ .error .panic := by
   unfold concatCol
   generalize col.filterMap id = fm
@@ -1740,11 +1756,11 @@ theorem concatCol_no_panic (cfg : Cfg) (hg : cfg.nilAbsent = true) (n : Nat) (co
     | error e =>
       simp [hc, Except.map] at h
       subst h
-      exact concatMsgs_no_panic cfg hg n fm hc
+      exact concatMsgs_no_panic cfg hs hg n fm hc
 
 /-- through `concatStreamReader` the array concatenation never panics: `mas[0]` is only
     evaluated on ≥ 2 arrays -/
-theorem concatArrChunks_no_panic (cfg : Cfg) (hg : cfg.nilAbsent = true) (n : Nat)
+theorem concatArrChunks_no_panic (cfg : Cfg) (hs : cfg.Std) (hg : cfg.nilAbsent = true) (n : Nat)
     (xs : List (List (Option Msg))) : concatArrChunks cfg n xs ≠ .error .panic := by
   unfold concatArrChunks
   cases xs with
@@ -1757,7 +1773,88 @@ theorem concatArrChunks_no_panic (cfg : Cfg) (hg : cfg.nilAbsent = true) (n : Na
       split
       · intro h
         obtain ⟨i, _, he⟩ := mapM_error_mem _ _ _ h
-        exact concatCol_no_panic cfg hg n _ he
+        exact concatCol_no_panic cfg hs hg n _ he
       · simp
+
+/-! ### chunks of type `any` (interface element type: single non-nil rule, nil result) -/
+
+/-- `concatStream_rechunk` with the law of `core` needed for the given lists only -/
+theorem concatStream_rechunk' {α} (core : List α → Except Err α) (xs ys : List α) (hxs : xs ≠ [])
+    (hcore : EqvE (core xs >>= fun r => core (r :: ys)) (core (xs ++ ys))) :
+    EqvE (concatStream core xs >>= fun r => concatStream core (r :: ys)) (concatStream core (xs ++ ys)) := by
+  cases xs with
+  | nil => exact absurd rfl hxs
+  | cons x t =>
+    cases t with
+    | nil => simp only [concatStream, bind, Except.bind, List.cons_append, List.nil_append]; exact EqvE.rfl' _
+    | cons x' t' =>
+      cases ys with
+      | nil =>
+        simp only [concatStream, List.append_nil]
+        cases core (x :: x' :: t') <;> simp [bind, Except.bind, EqvE, concatStream]
+      | cons y t'' =>
+        have := hcore
+        simp only [concatStream, List.cons_append] at this ⊢
+        cases hc : core (x :: x' :: t') with
+        | error e => rw [hc] at this; simpa [bind, Except.bind] using this
+        | ok r => rw [hc] at this; simpa [bind, Except.bind, concatStream] using this
+
+theorem anyCore_rechunk (cfg : Cfg) (xs ys : List XVal)
+    (h : cfg.nilResultGuard = true ∨ ∃ x ∈ xs, x.isNil = false) :
+    EqvE (anyCore cfg xs >>= fun r => anyCore cfg (r :: ys)) (anyCore cfg (xs ++ ys)) := by
+  unfold anyCore
+  simp only [List.filter_append]
+  cases hf : xs.filter (fun v => !v.isNil) with
+  | nil =>
+    have hg : cfg.nilResultGuard = true := by
+      rcases h with h | ⟨x, hx, hn⟩
+      · exact h
+      · have : x ∈ xs.filter (fun v => !v.isNil) := List.mem_filter.2 ⟨hx, by simp [hn]⟩
+        rw [hf] at this; cases this
+    simp only [hg, if_true, bind, Except.bind, List.filter_cons, XVal.isNil, Bool.not_true, Bool.false_eq_true,
+      if_false, List.nil_append]
+    exact EqvE.rfl' _
+  | cons v t =>
+    have hv : (!v.isNil) = true := by
+      have : v ∈ xs.filter (fun v => !v.isNil) := by rw [hf]; simp
+      exact (List.mem_filter.1 this).2
+    cases t with
+    | nil =>
+      simp only [bind, Except.bind, List.filter_cons, hv, if_true, List.cons_append, List.nil_append]
+      exact EqvE.rfl' _
+    | cons w t' => simp [bind, Except.bind, EqvE]
+
+theorem anyCore_total (cfg : Cfg) (xs : List XVal)
+    (h : cfg.nilResultGuard = true ∨ ∃ x ∈ xs, x.isNil = false) :
+    (∃ v, anyCore cfg xs = .ok v) ∨ anyCore cfg xs = .error .fail := by
+  unfold anyCore
+  cases hf : xs.filter (fun v => !v.isNil) with
+  | nil =>
+    rcases h with h | ⟨x, hx, hn⟩
+    · simp [h]
+    · have : x ∈ xs.filter (fun v => !v.isNil) := List.mem_filter.2 ⟨hx, by simp [hn]⟩
+      rw [hf] at this; cases this
+  | cons v t => cases t <;> simp
+
+theorem concatAnyChunks_rechunk (cfg : Cfg) (xs ys : List XVal) (hxs : xs ≠ [])
+    (h : cfg.nilResultGuard = true ∨ ∃ x ∈ xs, x.isNil = false) :
+    EqvE (concatAnyChunks cfg xs >>= fun r => concatAnyChunks cfg (r :: ys)) (concatAnyChunks cfg (xs ++ ys)) :=
+  concatStream_rechunk' (anyCore cfg) xs ys hxs (anyCore_rechunk cfg xs ys h)
+
+theorem concatAnyChunks_total (cfg : Cfg) (xs : List XVal)
+    (h : cfg.nilResultGuard = true ∨ (∃ x ∈ xs, x.isNil = false) ∨ xs.length < 2) :
+    (∃ v, concatAnyChunks cfg xs = .ok v) ∨ concatAnyChunks cfg xs = .error .fail := by
+  unfold concatAnyChunks
+  cases xs with
+  | nil => exact Or.inr rfl
+  | cons x t =>
+    cases t with
+    | nil => exact Or.inl ⟨x, rfl⟩
+    | cons y t' =>
+      apply anyCore_total
+      rcases h with h | h | h
+      · exact Or.inl h
+      · exact Or.inr h
+      · simp only [List.length_cons] at h; omega
 
 end EinoV.C14
